@@ -37,7 +37,7 @@ var c10Kinds = []string{"dsc", "changes", "control", "packages", "sources", "deb
 func (c10) Batches(tier string, seed uint64) []core.Batch {
 	var b []core.Batch
 	for _, k := range c10Kinds {
-		b = append(b, spread(k, 3, tierN(tier, 170, 2000))...)
+		b = append(b, spread(k, 3, tierN(tier, 900, 5000))...)
 	}
 	return b
 }
